@@ -11,7 +11,7 @@
    The loops of the real code are `for ... in range(...)` over ranges fixed before the loop
    starts, so they are structural recursion over [zrange]; there is no while loop and no fuel.
    No proofs in this file. *)
-From Coq Require Import ZArith QArith List Bool.
+From Coq Require Import ZArith QArith Qabs List Bool.
 From Coq Require Import PrimFloat.
 From BV Require Import Base.Prelude Base.OrdField.
 Import ListNotations.
@@ -158,6 +158,9 @@ Definition yo2 (y_num : Z) : Z := if (y_num mod 2 =? 0)%Z then (-1)%Z else 0%Z.
 Definition inx (x_num k : Z) : bool := (Z.abs (2 * k - xo2 x_num) <? x_num)%Z.
 Definition iny (y_num k : Z) : bool := (Z.abs (2 * k - yo2 y_num) <? y_num)%Z.
 
+(* first index of each axis: the grid is  [kmin, kmin + num)  (see Proofs: inx_range, iny_range) *)
+Definition kmin (n o2 : Z) : Z := ((1 - n + o2) / 2)%Z.
+
 (* one `SIDE` block: its guard, and the candidate points of its for-loop with their own guard *)
 Definition seg : Type := bool * list ((Z * Z) * bool).
 
@@ -211,6 +214,16 @@ Definition spiral_square_pattern (x_center y_center x_range y_range : F) (x_num 
                (square_rest x_num y_num)).
 
 End Square.
+
+(* ---------------------------------------------------------------- vocabulary of the statements (Q) *)
+(* the sheared ("tilted") rectangle of half-widths x_range/2, y_range/2 around the centre, for
+   offsets (x, y) from the centre, aspect a = dr_y/dr and tt = tan(tilt + pi/2) *)
+Definition in_rect (xr yr a tt x y : Q) : Prop :=
+  (Qabs y <= Qabs yr / 2 /\ (0 < a -> Qabs y <= yr / 2) /\
+   ~ tt == 0 /\ Qabs (x - (y / a) / tt) <= xr / 2)%Q.
+
+(* numpy.linspace(a, b, n)[j] *)
+Definition linspace (a b : Q) (n j : Z) : Q := (a + inject_Z j * ((b - a) / inject_Z (n - 1)))%Q.
 
 (* ---------------------------------------------------------------- float instance, for the tie *)
 Definition FT (cos_t sin_t tan_t sq_t : list (float * float)) : Trig float :=
